@@ -43,11 +43,23 @@ class SerializeTraits<::std::vector<T, A>>
   static bool deserialize(CodedInputStream& is, Value& value) noexcept {
     if CONSTEXPR_SINCE_CXX17 (::std::is_same<float, T>::value ||
                               ::std::is_same<double, T>::value) {
-      auto num = static_cast<size_t>(is.BytesUntilLimit()) / sizeof(T);
-      value.reserve(value.size() + num);
+      const void* data = nullptr;
+      int size = 0;
+      auto bytes = is.BytesUntilLimit();
+      // reserve only what is really there: no limit (-1) and limits behind
+      // the end of the stream must not drive reserve
+      if (bytes > 0 && is.GetDirectBufferPointer(&data, &size)) {
+        value.reserve(value.size() +
+                      static_cast<size_t>(bytes < size ? bytes : size) /
+                          sizeof(T));
+      }
     }
 
-    while (is.BytesUntilLimit() > 0) {
+    const void* data = nullptr;
+    int size = 0;
+    // same condition as list / set / map: data available below the limit
+    // (works without an enclosing limit, stops at the end of the stream)
+    while (is.GetDirectBufferPointer(&data, &size)) {
       value.emplace_back();
       if (ABSL_PREDICT_FALSE(!SerializationHelper::deserialize_packed_field(
               is, value.back()))) {
@@ -126,7 +138,9 @@ class SerializeTraits<::std::vector<bool, A>>
   }
 
   static bool deserialize(CodedInputStream& is, Value& value) noexcept {
-    while (is.BytesUntilLimit() > 0) {
+    const void* data = nullptr;
+    int size = 0;
+    while (is.GetDirectBufferPointer(&data, &size)) {
       bool result;
       if (ABSL_PREDICT_FALSE(
               !SerializationHelper::deserialize_packed_field(is, result))) {
